@@ -41,13 +41,15 @@ def real_class(module, letter):
 
 
 TEXT_ALPHA = [chr(c) for c in list(range(0x20, 0x7f)) + list(range(0xa0, 0x100)) if chr(c) not in "|\\^&"]
+# control characters are ordinary field text (only | \\ ^ & CR are special): line separators of str/bytes.splitlines, TAB, NUL
+TEXT_CTRL = [chr(c) for c in (10, 11, 12, 0x1c, 0x1d, 0x1e, 0x85, 9, 0, 0x7f)]
 
 
 def rand_text(r, maxlen=None):
     n = r.choice([1, 1, 2, 3, 6, 12])
     if maxlen is not None:
         n = min(n, maxlen) if maxlen > 0 else 0
-    return "".join(r.choice(TEXT_ALPHA) for _ in range(n))
+    return "".join(r.choice(TEXT_CTRL) if r.random() < 0.04 else r.choice(TEXT_ALPHA) for _ in range(n))
 
 
 def valid_date(r):
